@@ -524,7 +524,7 @@ var bufExtAlias = map[string][]int{
 	"(*" + Root + "/xfer.XferPipe).OnPack":   {1},
 	"bytes.SplitN":                           {0},
 	"bytes.Split":                            {0},
-	"bytes.TrimSpace":                             {0},
+	"bytes.TrimSpace":                        {0},
 	// gjson returns sub-strings of the document for every string that needs no unescaping
 	"github.com/tidwall/gjson.Get":             {0},
 	"github.com/tidwall/gjson.GetBytes":        {0},
